@@ -3,7 +3,8 @@
 Oracles: (1) process independence: every generated case is matched by 5 persistent worker processes started with different
 PYTHONHASHSEED values; the canonical results (index, path keys, states, probability) must be identical;
 (2) order independence: in-process, the same case with node order and every neighbour list permuted must give the same index and
-probability (the path may differ only among equally probable alternatives)."""
+probability (the path may differ only among equally probable alternatives);
+(3) object reuse: a matcher that matched a different trace before must give exactly the result of a fresh matcher."""
 import atexit
 import json
 import os
@@ -91,7 +92,7 @@ def permuted(case):
 
 def check_case(case, ctx):
     # (1) across processes
-    answers = ask_all({k: v for k, v in case.items() if k != "perm"})
+    answers = ask_all({k: v for k, v in case.items() if k not in ("perm", "decoy")})
     ref_hs, ref = answers[0]
     for hs, a in answers[1:]:
         if a != ref:
@@ -101,7 +102,8 @@ def check_case(case, ctx):
     if "raised" in ref:
         raise Violation("raised:" + ref["raised"], ref.get("msg", ""))
     # (2) order of nodes and neighbours
-    m1, s1, i1 = common.run_match(case)
+    fresh = {k: v for k, v in case.items() if k != "decoy"}
+    m1, s1, i1 = common.run_match(fresh)
     c1 = base.canon(m1, s1, i1)
     m2 = common.build(case, graph=permuted(case))
     s2, i2 = base.pkg(m2.match, base.to_path(case["trace"]), unique=case.get("unique", False))
@@ -119,6 +121,16 @@ def check_case(case, ctx):
         raise Violation("order.probability", f"listing order changes the best log-probability: {c1['lp']} vs {c2['lp']}")
     if c1["keys"] != c2["keys"]:
         classes.append("order:tie-different-path")
+    # (3) reuse of the matcher object: "the same map, trace and configuration" also when the matcher matched another trace before
+    if case.get("decoy"):
+        m3 = common.build(case)
+        common.run_decoy(case, m3)
+        s3, i3 = base.pkg(m3.match, base.to_path(case["trace"]), unique=case.get("unique", False), clause="reused-raised")
+        c3 = base.canon(m3, s3, i3)
+        if c3 != c1:
+            what = "index" if c3["idx"] != c1["idx"] else ("probability" if c3["lp"] != c1["lp"] else "path")
+            raise Violation(f"reuse.{what}", f"fresh matcher gives {c1}, a matcher that matched another trace before gives {c3}")
+        classes.append("reused-matcher")
     n = len(case["trace"])
     multi = any(len(d) >= 2 for col in m1.lattice.values() for d in col.o) if m1.lattice else False
     if c1["n_emit"] and c1["idx"] < n - 1:
@@ -154,5 +166,6 @@ def strategy(tier):
                         "nbr_rot": [draw(st.integers(0, 3)) for _ in range(n)],
                         "nbr_rev": [draw(st.booleans()) for _ in range(n)]}
         case["unique"] = draw(st.booleans())
+        case = draw(common.maybe_decoy(case, share=4))
         return case
     return _s()
